@@ -313,37 +313,46 @@ theorem spec2_filterMap (hi : E .index) (hbud : E .budget) (cfg : CheckCfg) (c :
 
 /-! ### the extended fragment -/
 
+/-- the constructs that need a hypothesis on the world: calls of environment functions, `matches`, method calls -/
+structure FragOpts where
+  calls : Bool := false
+  regex : Bool := false
+  methods : Bool := false
+  deriving DecidableEq
+
+
 mutual
 /-- literals, identifiers, `#`, the operators of the scalar fragment, `in` / `not in` / `..`, indexing,
 `len`, slicing, `all none any one count` with their closures and — with `calls` — calls of environment
 functions.  (`filter` and `map` are left out: their static result type `[]T` is not the `[]interface{}`
 the VM builds — known finding; so are members and method calls.) -/
-def inFrag2 (calls regex : Bool) : Node → Bool
+def inFrag2 (fo : FragOpts) : Node → Bool
   | .bool _ _ | .str _ _ | .int _ _ | .float _ _ | .ident _ _ _ | .pointer _ => true
-  | .unary _ op x => fragUnary op && inFrag2 calls regex x
-  | .binary _ op l r => (fragBinary op || op == "in" || op == "not in" || op == ".." || op == "**") && inFrag2 calls regex l && inFrag2 calls regex r
-  | .cond _ c a b => inFrag2 calls regex c && inFrag2 calls regex a && inFrag2 calls regex b
-  | .index _ x i => inFrag2 calls regex x && inFrag2 calls regex i
-  | .slice _ x none none => inFrag2 calls regex x
-  | .slice _ x (some f) none => inFrag2 calls regex x && inFrag2 calls regex f
-  | .slice _ x none (some t) => inFrag2 calls regex x && inFrag2 calls regex t
-  | .slice _ x (some f) (some t) => inFrag2 calls regex x && inFrag2 calls regex f && inFrag2 calls regex t
-  | .builtin _ name [a] => name == "len" && inFrag2 calls regex a
+  | .unary _ op x => fragUnary op && inFrag2 fo x
+  | .binary _ op l r => (fragBinary op || op == "in" || op == "not in" || op == ".." || op == "**") && inFrag2 fo l && inFrag2 fo r
+  | .cond _ c a b => inFrag2 fo c && inFrag2 fo a && inFrag2 fo b
+  | .index _ x i => inFrag2 fo x && inFrag2 fo i
+  | .slice _ x none none => inFrag2 fo x
+  | .slice _ x (some f) none => inFrag2 fo x && inFrag2 fo f
+  | .slice _ x none (some t) => inFrag2 fo x && inFrag2 fo t
+  | .slice _ x (some f) (some t) => inFrag2 fo x && inFrag2 fo f && inFrag2 fo t
+  | .builtin _ name [a] => name == "len" && inFrag2 fo a
   | .builtin _ name [a, .closure _ b] =>
-    (isPredBuiltin name || name == "filter" || name == "map") && inFrag2 calls regex a && inFrag2 calls regex b
-  | .func _ _ args _ => calls && inFrag2L calls regex args
-  | .array _ xs => inFrag2L calls regex xs
-  | .prop _ x _ _ => inFrag2 calls regex x
-  | .map _ ps => inFrag2P calls regex ps
-  | .matches _ _ l r => regex && inFrag2 calls regex l && inFrag2 calls regex r
+    (isPredBuiltin name || name == "filter" || name == "map") && inFrag2 fo a && inFrag2 fo b
+  | .func _ _ args _ => fo.calls && inFrag2L fo args
+  | .array _ xs => inFrag2L fo xs
+  | .prop _ x _ _ => inFrag2 fo x
+  | .map _ ps => inFrag2P fo ps
+  | .method _ x _ args _ => fo.methods && inFrag2 fo x && inFrag2L fo args
+  | .matches _ _ l r => fo.regex && inFrag2 fo l && inFrag2 fo r
   | _ => false
-def inFrag2L (calls regex : Bool) : List Node → Bool
+def inFrag2L (fo : FragOpts) : List Node → Bool
   | [] => true
-  | a :: rest => inFrag2 calls regex a && inFrag2L calls regex rest
+  | a :: rest => inFrag2 fo a && inFrag2L fo rest
 /-- the pairs of a map literal -/
-def inFrag2P (calls regex : Bool) : List Node → Bool
+def inFrag2P (fo : FragOpts) : List Node → Bool
   | [] => true
-  | .pair _ k v :: rest => inFrag2 calls regex k && inFrag2 calls regex v && inFrag2P calls regex rest
+  | .pair _ k v :: rest => inFrag2 fo k && inFrag2 fo v && inFrag2P fo rest
   | _ :: _ => false
 end
 
@@ -474,6 +483,17 @@ def typed2 (cfg : CheckCfg) : List OTy → Node → Bool
   | cs, .prop m x name ns =>
     (objOK (synth cfg cs x) || propMapOK (synth cfg cs x) (synth cfg cs (.prop m x name ns))) && typed2 cfg cs x
   | cs, .map _ ps => typed2P cfg cs ps
+  | cs, .method _ x name args _ =>
+    objOK (synth cfg cs x) && typed2 cfg cs x &&
+    (match synth cfg cs x with
+      | some t =>
+        (match methodTarget cfg.dn t name with
+          | some (fn, im) =>
+            (match funcPlan fn im args.length with
+              | .inr (ins, variadic, numIn, offset, _) => typed2A cfg cs ins variadic numIn offset 0 args
+              | .inl _ => false)
+          | none => false)
+      | none => false)
   | cs, .matches _ _ l r => strOK (synth cfg cs l) && strOK (synth cfg cs r) && typed2 cfg cs l && typed2 cfg cs r
   | _, _ => true
 /-- the elements of an array literal: each has a value type of the fragment -/
@@ -516,9 +536,9 @@ theorem intOK_elim {o : Option OTy} (h : intOK o = true) :
 mutual
 /-- **Soundness on the extended fragment**, by recursion over the tree. -/
 theorem frag2_sound (hd : E .divzero) (hi : E .index) (hbud : E .budget) (cfg : CheckCfg) (c : SCfg)
-    (henv : EnvConforms2 cfg c.env) (hdn : cfg.dn = NDefects.asIs) (calls : Bool) (hw : calls = true → WorldConforms E cfg c)
-    (regex : Bool) (hre : regex = true → RegexTotal c) :
-    ∀ (n : Node) (cs : List OTy), inFrag2 calls regex n = true → typed2 cfg cs n = true → Spec2 E cfg c cs n
+    (henv : EnvConforms2 cfg c.env) (hdn : cfg.dn = NDefects.asIs) (fo : FragOpts) (hw : fo.calls = true → WorldConforms E cfg c)
+    (hre : fo.regex = true → RegexTotal c) (hm : fo.methods = true → MethodsConform E cfg c) :
+    ∀ (n : Node) (cs : List OTy), inFrag2 fo n = true → typed2 cfg cs n = true → Spec2 E cfg c cs n
   | .bool m b, cs, _, _ =>
     frag_to_spec2 (frag_sound hd cfg cs c (envConforms_of2 henv) (.bool m b) rfl rfl)
       (fun τ h => by simp only [synth, Option.some.injEq] at h; subst h; rfl)
@@ -536,7 +556,7 @@ theorem frag2_sound (hd : E .divzero) (hi : E .index) (hbud : E .budget) (cfg : 
   | .unary m op x, cs, hf, ht => by
     simp only [inFrag2, Bool.and_eq_true] at hf
     simp only [typed2, Bool.and_eq_true] at ht
-    have ihx := frag2_sound hd hi hbud cfg c henv hdn calls hw regex hre x cs hf.2 ht.2
+    have ihx := frag2_sound hd hi hbud cfg c henv hdn fo hw hre hm x cs hf.2 ht.2
     refine frag_to_spec2 (frag_unary cfg cs c m op x hf.1 ht.1.1 ht.1.2 (spec2_to_frag ihx)) ?_
     intro τ h
     have := ht.1.1
@@ -545,9 +565,9 @@ theorem frag2_sound (hd : E .divzero) (hi : E .index) (hbud : E .budget) (cfg : 
     simp only [inFrag2, Bool.and_eq_true] at hf
     simp only [typed2, Bool.and_eq_true] at ht
     obtain ⟨⟨⟨⟨h0, h1⟩, t1⟩, t2⟩, t3⟩ := ht
-    refine spec2_cond cfg c cs m cn a b (frag2_sound hd hi hbud cfg c henv hdn calls hw regex hre cn cs hf.1.1 t1)
-      (frag2_sound hd hi hbud cfg c henv hdn calls hw regex hre a cs hf.1.2 t2)
-      (frag2_sound hd hi hbud cfg c henv hdn calls hw regex hre b cs hf.2 t3) ?_ ?_
+    refine spec2_cond cfg c cs m cn a b (frag2_sound hd hi hbud cfg c henv hdn fo hw hre hm cn cs hf.1.1 t1)
+      (frag2_sound hd hi hbud cfg c henv hdn fo hw hre hm a cs hf.1.2 t2)
+      (frag2_sound hd hi hbud cfg c henv hdn fo hw hre hm b cs hf.2 t3) ?_ ?_
     · intro ct h
       rw [h] at h0; exact h0
     · intro ta tb ha hb
@@ -560,8 +580,8 @@ theorem frag2_sound (hd : E .divzero) (hi : E .index) (hbud : E .budget) (cfg : 
     simp only [typed2, Bool.and_eq_true] at ht
     obtain ⟨⟨hop, hfl⟩, hfr⟩ := hf
     obtain ⟨⟨hcls, htl⟩, htr⟩ := ht
-    have ihl := frag2_sound hd hi hbud cfg c henv hdn calls hw regex hre l cs hfl htl
-    have ihr := frag2_sound hd hi hbud cfg c henv hdn calls hw regex hre r cs hfr htr
+    have ihl := frag2_sound hd hi hbud cfg c henv hdn fo hw hre hm l cs hfl htl
+    have ihr := frag2_sound hd hi hbud cfg c henv hdn fo hw hre hm r cs hfr htr
     by_cases hfb : fragBinary op = true
     · simp only [hfb, if_true, Bool.and_eq_true] at hcls
       refine frag_to_spec2 (frag_binary hd cfg cs c m op l r hfb hcls.1.2 hcls.2 (spec2_to_frag ihl)
@@ -612,8 +632,8 @@ theorem frag2_sound (hd : E .divzero) (hi : E .index) (hbud : E .budget) (cfg : 
     simp only [inFrag2, Bool.and_eq_true] at hf
     simp only [typed2, Bool.and_eq_true] at ht
     obtain ⟨⟨hcase, htx⟩, hti⟩ := ht
-    have ihx := frag2_sound hd hi hbud cfg c henv hdn calls hw regex hre x cs hf.1 htx
-    have ihi := frag2_sound hd hi hbud cfg c henv hdn calls hw regex hre i cs hf.2 hti
+    have ihx := frag2_sound hd hi hbud cfg c henv hdn fo hw hre hm x cs hf.1 htx
+    have ihi := frag2_sound hd hi hbud cfg c henv hdn fo hw hre hm i cs hf.2 hti
     by_cases hsl : (sliceOK (synth cfg cs x) && intOK (synth cfg cs i)) = true
     · simp only [Bool.and_eq_true] at hsl
       exact spec2_index hi cfg c cs m x i ihx ihi (sliceOK_elim hsl.1) (intOK_elim hsl.2)
@@ -648,36 +668,36 @@ theorem frag2_sound (hd : E .divzero) (hi : E .index) (hbud : E .budget) (cfg : 
   | .slice m x none none, cs, hf, ht => by
     simp only [inFrag2] at hf
     simp only [typed2, Bool.and_eq_true] at ht
-    refine spec2_slice hi cfg c cs m x none none (frag2_sound hd hi hbud cfg c henv hdn calls hw regex hre x cs hf ht.2)
+    refine spec2_slice hi cfg c cs m x none none (frag2_sound hd hi hbud cfg c henv hdn fo hw hre hm x cs hf ht.2)
       (fun n h => by cases h) (fun n h => by cases h) (sliceOK_elim ht.1)
       (fun n it h => by cases h) (fun n it h => by cases h)
   | .slice m x (some f) none, cs, hf, ht => by
     simp only [inFrag2, Bool.and_eq_true] at hf
     simp only [typed2, Bool.and_eq_true] at ht
     obtain ⟨⟨⟨h1, h2⟩, h3⟩, h4⟩ := ht
-    refine spec2_slice hi cfg c cs m x (some f) none (frag2_sound hd hi hbud cfg c henv hdn calls hw regex hre x cs hf.1 h2)
-      (fun n h => by cases h; exact frag2_sound hd hi hbud cfg c henv hdn calls hw regex hre f cs hf.2 h4) (fun n h => by cases h)
+    refine spec2_slice hi cfg c cs m x (some f) none (frag2_sound hd hi hbud cfg c henv hdn fo hw hre hm x cs hf.1 h2)
+      (fun n h => by cases h; exact frag2_sound hd hi hbud cfg c henv hdn fo hw hre hm f cs hf.2 h4) (fun n h => by cases h)
       (sliceOK_elim h1) (fun n it h => by cases h; exact intOK_elim h3 it) (fun n it h => by cases h)
   | .slice m x none (some t), cs, hf, ht => by
     simp only [inFrag2, Bool.and_eq_true] at hf
     simp only [typed2, Bool.and_eq_true] at ht
     obtain ⟨⟨⟨h1, h2⟩, h3⟩, h4⟩ := ht
-    refine spec2_slice hi cfg c cs m x none (some t) (frag2_sound hd hi hbud cfg c henv hdn calls hw regex hre x cs hf.1 h2)
-      (fun n h => by cases h) (fun n h => by cases h; exact frag2_sound hd hi hbud cfg c henv hdn calls hw regex hre t cs hf.2 h4)
+    refine spec2_slice hi cfg c cs m x none (some t) (frag2_sound hd hi hbud cfg c henv hdn fo hw hre hm x cs hf.1 h2)
+      (fun n h => by cases h) (fun n h => by cases h; exact frag2_sound hd hi hbud cfg c henv hdn fo hw hre hm t cs hf.2 h4)
       (sliceOK_elim h1) (fun n it h => by cases h) (fun n it h => by cases h; exact intOK_elim h3 it)
   | .slice m x (some f) (some t), cs, hf, ht => by
     simp only [inFrag2, Bool.and_eq_true] at hf
     simp only [typed2, Bool.and_eq_true] at ht
     obtain ⟨⟨⟨⟨⟨h1, h2⟩, h3⟩, h4⟩, h5⟩, h6⟩ := ht
-    refine spec2_slice hi cfg c cs m x (some f) (some t) (frag2_sound hd hi hbud cfg c henv hdn calls hw regex hre x cs hf.1.1 h2)
-      (fun n h => by cases h; exact frag2_sound hd hi hbud cfg c henv hdn calls hw regex hre f cs hf.1.2 h4)
-      (fun n h => by cases h; exact frag2_sound hd hi hbud cfg c henv hdn calls hw regex hre t cs hf.2 h6)
+    refine spec2_slice hi cfg c cs m x (some f) (some t) (frag2_sound hd hi hbud cfg c henv hdn fo hw hre hm x cs hf.1.1 h2)
+      (fun n h => by cases h; exact frag2_sound hd hi hbud cfg c henv hdn fo hw hre hm f cs hf.1.2 h4)
+      (fun n h => by cases h; exact frag2_sound hd hi hbud cfg c henv hdn fo hw hre hm t cs hf.2 h6)
       (sliceOK_elim h1) (fun n it h => by cases h; exact intOK_elim h3 it) (fun n it h => by cases h; exact intOK_elim h5 it)
   | .builtin m name [a], cs, hf, ht => by
     simp only [inFrag2, Bool.and_eq_true, beq_iff_eq] at hf
     simp only [typed2, Bool.and_eq_true] at ht
     obtain ⟨rfl, hfa⟩ := hf
-    refine spec2_len cfg c cs m a (frag2_sound hd hi hbud cfg c henv hdn calls hw regex hre a cs hfa ht.2) ?_
+    refine spec2_len cfg c cs m a (frag2_sound hd hi hbud cfg c henv hdn fo hw hre hm a cs hfa ht.2) ?_
     intro t h
     have hl := ht.1
     rw [h] at hl
@@ -697,12 +717,12 @@ theorem frag2_sound (hd : E .divzero) (hi : E .index) (hbud : E .budget) (cfg : 
     simp only [typed2, Bool.and_eq_true] at ht
     obtain ⟨⟨hname, hfa⟩, hfb⟩ := hf
     obtain ⟨⟨⟨hsa, hta⟩, hdt⟩, hbody⟩ := ht
-    have iha := frag2_sound hd hi hbud cfg c henv hdn calls hw regex hre a cs hfa hta
+    have iha := frag2_sound hd hi hbud cfg c henv hdn fo hw hre hm a cs hfa hta
     have ihb : ∀ coll, synth cfg cs a = some coll → Spec2 E cfg c (coll :: cs) b := by
       intro coll hc
       rw [hc] at hbody
       simp only [Bool.and_eq_true] at hbody
-      exact frag2_sound hd hi hbud cfg c henv hdn calls hw regex hre b (coll :: cs) hfb hbody.2
+      exact frag2_sound hd hi hbud cfg c henv hdn fo hw hre hm b (coll :: cs) hfb hbody.2
     by_cases hp : isPredBuiltin name = true
     · refine spec2_predBuiltin cfg c cs m mc name a b hp iha ihb (sliceOK_elim hsa) ?_
       intro coll bt hc hb'
@@ -751,11 +771,11 @@ theorem frag2_sound (hd : E .divzero) (hi : E .index) (hbud : E .budget) (cfg : 
       cases h1
       rw [h2] at ht
       simp only [] at ht
-      exact frag2_args hd hi hbud cfg c henv hdn calls hw regex hre args cs ins variadic numIn offset 0 hfa ht
+      exact frag2_args hd hi hbud cfg c henv hdn fo hw hre hm args cs ins variadic numIn offset 0 hfa ht
   | .prop m x name ns, cs, hf, ht => by
     simp only [inFrag2] at hf
     simp only [typed2, Bool.and_eq_true] at ht
-    have ihx := frag2_sound hd hi hbud cfg c henv hdn calls hw regex hre x cs hf ht.2
+    have ihx := frag2_sound hd hi hbud cfg c henv hdn fo hw hre hm x cs hf ht.2
     by_cases hobj : objOK (synth cfg cs x) = true
     · refine spec2_prop cfg c cs hdn m x name ns ihx ?_
       intro t h
@@ -784,24 +804,45 @@ theorem frag2_sound (hd : E .divzero) (hi : E .index) (hbud : E .budget) (cfg : 
     simp only [typed2, Bool.and_eq_true] at ht
     obtain ⟨⟨⟨h1, h2⟩, h3⟩, h4⟩ := ht
     refine spec2_matches cfg c (hre hf.1.1) cs m hasRe l r
-      (frag2_sound hd hi hbud cfg c henv hdn calls hw regex hre l cs hf.1.2 h3)
-      (frag2_sound hd hi hbud cfg c henv hdn calls hw regex hre r cs hf.2 h4) ?_ ?_
+      (frag2_sound hd hi hbud cfg c henv hdn fo hw hre hm l cs hf.1.2 h3)
+      (frag2_sound hd hi hbud cfg c henv hdn fo hw hre hm r cs hf.2 h4) ?_ ?_
     · intro t h
       rw [h] at h1
       simpa [strOK] using h1
     · intro t h
       rw [h] at h2
       simpa [strOK] using h2
+  | .method m x name args ns, cs, hf, ht => by
+    simp only [inFrag2, Bool.and_eq_true] at hf
+    simp only [typed2, Bool.and_eq_true] at ht
+    obtain ⟨⟨hobj, htx⟩, hrest⟩ := ht
+    refine spec2_method hd cfg c hdn (hm hf.1.1) cs m x name args ns
+      (frag2_sound hd hi hbud cfg c henv hdn fo hw hre hm x cs hf.1.2 htx) ?_ ?_
+    · intro t h
+      rw [h] at hobj
+      simpa [objOK] using hobj
+    · intro t fn im h1 h2
+      rw [h1] at hrest
+      simp only [] at hrest
+      rw [h2] at hrest
+      simp only [] at hrest
+      cases hfp : funcPlan fn im args.length with
+      | inl rule => rw [hfp] at hrest; cases hrest
+      | inr q =>
+        obtain ⟨ins, variadic, numIn, offset, out⟩ := q
+        rw [hfp] at hrest
+        simp only [] at hrest
+        exact ⟨ins, variadic, numIn, offset, out, rfl,
+          frag2_args hd hi hbud cfg c henv hdn fo hw hre hm args cs ins variadic numIn offset 0 hf.2 hrest⟩
   | .map m ps, cs, hf, ht => by
     simp only [inFrag2] at hf
     simp only [typed2] at ht
-    exact spec2_mapLit hbud cfg c cs m ps (frag2_pairs hd hi hbud cfg c henv hdn calls hw regex hre ps cs hf ht)
+    exact spec2_mapLit hbud cfg c cs m ps (frag2_pairs hd hi hbud cfg c henv hdn fo hw hre hm ps cs hf ht)
   | .array m xs, cs, hf, ht => by
     simp only [inFrag2] at hf
     simp only [typed2] at ht
-    exact spec2_array hbud cfg c cs m xs (frag2_elems hd hi hbud cfg c henv hdn calls hw regex hre xs cs hf ht)
+    exact spec2_array hbud cfg c cs m xs (frag2_elems hd hi hbud cfg c henv hdn fo hw hre hm xs cs hf ht)
   | .nil _, _, hf, _ | .const _ _, _, hf, _
-  | .method _ _ _ _ _, _, hf, _
   | .closure _ _, _, hf, _ | .pair _ _ _, _, hf, _ => by
     simp [inFrag2] at hf
   | .builtin _ _ [], _, hf, _ => by simp [inFrag2] at hf
@@ -809,31 +850,31 @@ theorem frag2_sound (hd : E .divzero) (hi : E .index) (hbud : E .budget) (cfg : 
   | .builtin _ _ [_, .nil _], _, hf, _ => by simp [inFrag2] at hf
 
 theorem frag2_elems (hd : E .divzero) (hi : E .index) (hbud : E .budget) (cfg : CheckCfg) (c : SCfg)
-    (henv : EnvConforms2 cfg c.env) (hdn : cfg.dn = NDefects.asIs) (calls : Bool) (hw : calls = true → WorldConforms E cfg c)
-    (regex : Bool) (hre : regex = true → RegexTotal c) :
-    ∀ (xs : List Node) (cs : List OTy), inFrag2L calls regex xs = true → typed2L cfg cs xs = true →
+    (henv : EnvConforms2 cfg c.env) (hdn : cfg.dn = NDefects.asIs) (fo : FragOpts) (hw : fo.calls = true → WorldConforms E cfg c)
+    (hre : fo.regex = true → RegexTotal c) (hm : fo.methods = true → MethodsConform E cfg c) :
+    ∀ (xs : List Node) (cs : List OTy), inFrag2L fo xs = true → typed2L cfg cs xs = true →
       ElemsOK E cfg c cs xs
   | [], _, _, _ => trivial
   | a :: rest, cs, hf, ht => by
     simp only [inFrag2L, Bool.and_eq_true] at hf
     simp only [typed2L, Bool.and_eq_true] at ht
-    refine ⟨⟨?_, frag2_sound hd hi hbud cfg c henv hdn calls hw regex hre a cs hf.1 ht.1.2, ht.1.1⟩,
-      frag2_elems hd hi hbud cfg c henv hdn calls hw regex hre rest cs hf.2 ht.2⟩
+    refine ⟨⟨?_, frag2_sound hd hi hbud cfg c henv hdn fo hw hre hm a cs hf.1 ht.1.2, ht.1.1⟩,
+      frag2_elems hd hi hbud cfg c henv hdn fo hw hre hm rest cs hf.2 ht.2⟩
     cases a <;> first | rfl | (simp [inFrag2] at hf)
 
 theorem frag2_pairs (hd : E .divzero) (hi : E .index) (hbud : E .budget) (cfg : CheckCfg) (c : SCfg)
-    (henv : EnvConforms2 cfg c.env) (hdn : cfg.dn = NDefects.asIs) (calls : Bool) (hw : calls = true → WorldConforms E cfg c)
-    (regex : Bool) (hre : regex = true → RegexTotal c) :
-    ∀ (ps : List Node) (cs : List OTy), inFrag2P calls regex ps = true → typed2P cfg cs ps = true →
+    (henv : EnvConforms2 cfg c.env) (hdn : cfg.dn = NDefects.asIs) (fo : FragOpts) (hw : fo.calls = true → WorldConforms E cfg c)
+    (hre : fo.regex = true → RegexTotal c) (hm : fo.methods = true → MethodsConform E cfg c) :
+    ∀ (ps : List Node) (cs : List OTy), inFrag2P fo ps = true → typed2P cfg cs ps = true →
       PairsOK E cfg c cs ps
   | [], _, _, _ => trivial
   | .pair m k v :: rest, cs, hf, ht => by
     simp only [inFrag2P, Bool.and_eq_true] at hf
     simp only [typed2P, Bool.and_eq_true] at ht
     obtain ⟨⟨⟨⟨h1, h2⟩, h3⟩, h4⟩, h5⟩ := ht
-    refine ⟨⟨frag2_sound hd hi hbud cfg c henv hdn calls hw regex hre k cs hf.1.1 h3,
-      frag2_sound hd hi hbud cfg c henv hdn calls hw regex hre v cs hf.1.2 h4, ?_, h2⟩,
-      frag2_pairs hd hi hbud cfg c henv hdn calls hw regex hre rest cs hf.2 h5⟩
+    refine ⟨⟨frag2_sound hd hi hbud cfg c henv hdn fo hw hre hm k cs hf.1.1 h3,
+      frag2_sound hd hi hbud cfg c henv hdn fo hw hre hm v cs hf.1.2 h4, ?_, h2⟩,
+      frag2_pairs hd hi hbud cfg c henv hdn fo hw hre hm rest cs hf.2 h5⟩
     intro kt hk
     rw [hk] at h1
     simpa [strOK] using h1
@@ -846,17 +887,17 @@ theorem frag2_pairs (hd : E .divzero) (hi : E .index) (hbud : E .budget) (cfg : 
     simp [inFrag2P] at h
 
 theorem frag2_args (hd : E .divzero) (hi : E .index) (hbud : E .budget) (cfg : CheckCfg) (c : SCfg)
-    (henv : EnvConforms2 cfg c.env) (hdn : cfg.dn = NDefects.asIs) (calls : Bool) (hw : calls = true → WorldConforms E cfg c)
-    (regex : Bool) (hre : regex = true → RegexTotal c) :
+    (henv : EnvConforms2 cfg c.env) (hdn : cfg.dn = NDefects.asIs) (fo : FragOpts) (hw : fo.calls = true → WorldConforms E cfg c)
+    (hre : fo.regex = true → RegexTotal c) (hm : fo.methods = true → MethodsConform E cfg c) :
     ∀ (args : List Node) (cs : List OTy) (ins : List Ty) (variadic : Bool) (numIn offset i : Nat),
-      inFrag2L calls regex args = true → typed2A cfg cs ins variadic numIn offset i args = true →
+      inFrag2L fo args = true → typed2A cfg cs ins variadic numIn offset i args = true →
       ArgsOK E cfg c cs ins variadic numIn offset i args
   | [], _, _, _, _, _, _, _, _ => trivial
   | a :: rest, cs, ins, variadic, numIn, offset, i, hf, ht => by
     simp only [inFrag2L, Bool.and_eq_true] at hf
     simp only [typed2A, Bool.and_eq_true] at ht
-    refine ⟨⟨?_, frag2_sound hd hi hbud cfg c henv hdn calls hw regex hre a cs hf.1 ht.1.2, ht.1.1⟩,
-      frag2_args hd hi hbud cfg c henv hdn calls hw regex hre rest cs ins variadic numIn offset (i + 1) hf.2 ht.2⟩
+    refine ⟨⟨?_, frag2_sound hd hi hbud cfg c henv hdn fo hw hre hm a cs hf.1 ht.1.2, ht.1.1⟩,
+      frag2_args hd hi hbud cfg c henv hdn fo hw hre hm rest cs ins variadic numIn offset (i + 1) hf.2 ht.2⟩
     cases a <;> first | rfl | (simp [inFrag2] at hf)
 end
 
